@@ -28,9 +28,11 @@ theorem gen_cas_orderings : (casOk dropSites && casOk spawnSites && casOk panicS
 
 /-! ## release_exactly_once -/
 
-/-- **release_exactly_once**: in every complete execution of a spawned instance — whichever way it went — the
-shared block, the thread-local block and the stack mapping have each been released exactly once, and the closure
-box exactly once unless the closure panicked, then never (it stays allocated: the exception the property grants) -/
+/-- **release_exactly_once**: in every complete execution of a spawned instance — whichever way it went, including
+a panic that starts *inside the epilogue* (the destructor of the unread result, `tDropPanic`) — the shared block,
+the thread-local block and the stack mapping have each been released exactly once, and the closure box exactly once
+unless the thread panicked (its closure, or the destructor of its unread result), then never (it stays allocated:
+the exception the property grants) -/
 theorem release_exactly_once (c : Cfg) (hc : c.Good) (s : St) (h : Reachable c s) (i : Nat)
     (hcmp : complete (s.inst i) = true) (hsp : spawnedOk (s.inst i).h = true) :
     (s.inst i).tsm = .freed ∧ (s.inst i).tsmFrees = 1 ∧
@@ -59,10 +61,13 @@ theorem release_exactly_once (c : Cfg) (hc : c.Good) (s : St) (h : Reachable c s
     have hb : (s.inst i).box = .live := by rw [inv.boxEq]; simp [boxOf, hsp, hdead, tFreedBox, hp]
     exact ⟨hb, by rw [inv.boxC, hb]; rfl⟩
   · rw [inv.valEq]
-    cases hp : (s.inst i).panicked
-    · cases hh : (s.inst i).h <;> simp_all [hFinal, spawnedOk, valOf, hReadDone, tPastFlag, tRan]
-      exact inv.wH.mpr hh
-    · simp [valOf, hp]
+    cases hd : (s.inst i).dpanic
+    · cases hp : (s.inst i).panicked
+      · cases hh : (s.inst i).h <;> simp_all [hFinal, spawnedOk, valOf, hReadDone, tPastFlag, tDropped, tRan]
+        exact inv.wH.mpr hh
+      · simp [valOf, hp, hd]
+    · have hp := (inv.dpI hd).1
+      simp [valOf, hp, hd, hdead, tRan]
 
 /-- no resource is ever released twice, in any reachable state (complete or not) -/
 theorem never_released_twice (c : Cfg) (hc : c.Good) (s : St) (h : Reachable c s) (i : Nat) :
@@ -275,8 +280,19 @@ def spawnOkTrace (i : Nat) : List (Nat × Ev) :=
 
 /-- handle dropped first (H wins), thread returns later and frees the block after nulling its tid address -/
 def dropFirstTrace : List (Nat × Ev) :=
-  spawnOkTrace 0 ++ [(0, .hDrop), (0, .hCas true), (0, .tRet 5), (0, .tWrite), (0, .tCas false), (0, .tSetTid), (0, .tFreeTsm),
-    (0, .tFreeTls), (0, .tFreeBox), (0, .tMunmap), (0, .tExit), (0, .kExit)]
+  spawnOkTrace 0 ++ [(0, .hDrop), (0, .hCas true), (0, .tRet 5), (0, .tWrite), (0, .tCas false), (0, .tSetTid), (0, .tDropVal),
+    (0, .tFreeTsm), (0, .tFreeTls), (0, .tFreeBox), (0, .tMunmap), (0, .tExit), (0, .kExit)]
+
+/-- the same order on the code before commit d26787e (no drop of the unread result) -/
+def dropFirstTraceOld : List (Nat × Ev) :=
+  spawnOkTrace 0 ++ [(0, .hDrop), (0, .hCas true), (0, .tRet 5), (0, .tWrite), (0, .tCas false), (0, .tSetTid),
+    (0, .tFreeTsm), (0, .tFreeTls), (0, .tFreeBox), (0, .tMunmap), (0, .tExit), (0, .kExit)]
+
+/-- handle dropped first, the closure returns, the destructor of the unread result panics on the thread: the panic
+handler runs from the middle of the epilogue — tls read and freed, CAS lost again, clear-tid reset again, block freed -/
+def dropPanicTrace : List (Nat × Ev) :=
+  spawnOkTrace 0 ++ [(0, .hDrop), (0, .hCas true), (0, .tRet 5), (0, .tWrite), (0, .tCas false), (0, .tSetTid), (0, .tDropPanic),
+    (0, .tPanicRead), (0, .tFreeTls), (0, .tCas false), (0, .tSetTid), (0, .tFreeTsm), (0, .tMunmap), (0, .tExit), (0, .kExit)]
 
 /-- thread finishes first (T wins), handle dropped while the thread is still exiting: parks, woken by the kernel -/
 def dropLateTrace : List (Nat × Ev) :=
@@ -294,6 +310,7 @@ def summary (tr : List (Nat × Ev)) : Option (Bool × Bool × Nat × Nat × Opti
 example : summary dropFirstTrace = some (true, false, 0, 0, some .H) := by decide
 example : summary dropLateTrace = some (true, false, 0, 0, some .T) := by decide
 example : summary panicDropAfterTrace = some (true, false, 1, 0, some .T) := by decide
+example : summary dropPanicTrace = some (true, false, 1, 0, some .H) := by decide
 
 /-- spawn.rs before the repair: a handle dropped without join never dropped the thread's return value -/
 def noDropCfg : Cfg := { genCfg with dropValH := false, dropValT := false }
@@ -304,15 +321,100 @@ allocated, so the heap is not back at its baseline although nothing panicked -/
 theorem dropped_handle_leaks_result_counterexample :
     ((run noDropCfg St.init dropLateTrace).map (fun s => (complete (s.inst 0), (s.inst 0).val, liveHeap (s.inst 0))) =
       some (true, .live, 1)) ∧
-    ((run noDropCfg St.init dropFirstTrace).map (fun s => (complete (s.inst 0), (s.inst 0).val, liveHeap (s.inst 0))) =
+    ((run noDropCfg St.init dropFirstTraceOld).map (fun s => (complete (s.inst 0), (s.inst 0).val, liveHeap (s.inst 0))) =
       some (true, .live, 1)) := by decide
 
 /-- the protections are needed: without `set_tid_address(0)` the kernel's clear-tid write lands in the block the
 losing thread has already freed -/
 theorem missing_set_tid_is_use_after_free :
     (run { genCfg with setTidRet := false } St.init
-      (spawnOkTrace 0 ++ [(0, .hDrop), (0, .hCas true), (0, .tRet 5), (0, .tWrite), (0, .tCas false), (0, .tFreeTsm),
+      (spawnOkTrace 0 ++ [(0, .hDrop), (0, .hCas true), (0, .tRet 5), (0, .tWrite), (0, .tCas false), (0, .tDropVal), (0, .tFreeTsm),
         (0, .tFreeTls), (0, .tFreeBox), (0, .tMunmap), (0, .tExit), (0, .kExit)])).map (fun s => (s.inst 0).bad) = some true := by
   decide
+
+/-! ## a panic that starts inside the epilogue: the destructor of the unread result -/
+
+/-- the only point of the thread's epilogue at which user code runs is `dropVal` (`drop_in_place` of the result nobody
+joined).  **At that point the thread has released nothing yet**: block, thread-local block, stack and closure box
+are live with release counters 0, the value is still there, the handle is detached for good and the clear-tid
+address is already null.  This is what makes it safe for `on_panic` to start from there and do every release
+itself — an epilogue that had released the thread-local block (or the block) *before* this point would see that
+release repeated by the panic handler -/
+theorem destructor_runs_before_any_release (c : Cfg) (hc : c.Good) (s : St) (h : Reachable c s) (i : Nat)
+    (ht : (s.inst i).t = .dropVal) :
+    (s.inst i).tsm = .live ∧ (s.inst i).tls = .live ∧ (s.inst i).stack = .live ∧ (s.inst i).box = .live ∧
+    (s.inst i).val = .live ∧ (s.inst i).slot ≠ none ∧
+    (s.inst i).tsmFrees = 0 ∧ (s.inst i).tlsFrees = 0 ∧ (s.inst i).stackFrees = 0 ∧ (s.inst i).boxFrees = 0 ∧
+    (s.inst i).h = .detached ∧ (s.inst i).ctid = false ∧ (s.inst i).panicked = false := by
+  have inv := reachable_inv c hc s h i
+  have hw := inv.lost (by rw [ht]; rfl)
+  have hdet := inv.wH.mp hw
+  have hp : (s.inst i).panicked = false := by
+    have := inv.pOK; rw [ht] at this; simpa [tOkP] using this
+  have hdp : (s.inst i).dpanic = false := by
+    cases hd : (s.inst i).dpanic
+    · rfl
+    · rw [(inv.dpI hd).1] at hp; cases hp
+  have hslot : (s.inst i).slot ≠ none := by
+    intro h0
+    have := (inv.ret2 (by rw [ht]; rfl)).2.mpr h0
+    rw [hp] at this; cases this.1
+  have h1 : (s.inst i).tsm = .live := by rw [inv.tsmEq]; simp [tsmOf, hdet, hFreedTsm, ht, tPastFlag]
+  have h2 : (s.inst i).tls = .live := by rw [inv.tlsEq]; simp [tlsOf, hdet, spawnedOk, ht, tFreedTls]
+  have h3 : (s.inst i).stack = .live := by rw [inv.stackEq]; simp [stackOf, hdet, spawnedOk, ht, tFreedStack]
+  have h4 : (s.inst i).box = .live := by rw [inv.boxEq]; simp [boxOf, hdet, spawnedOk, ht, tFreedBox]
+  have h5 : (s.inst i).val = .live := by
+    rw [inv.valEq]; simp [valOf, hp, hdp, ht, tRan, hdet, hReadDone, tDropped, tPastFlag]
+  refine ⟨h1, h2, h3, h4, h5, hslot, by rw [inv.tsmC, h1]; rfl, by rw [inv.tlsC, h2]; rfl, by rw [inv.stackC, h3]; rfl,
+    by rw [inv.boxC, h4]; rfl, hdet, inv.ctidI (Or.inr (Or.inl ht)), hp⟩
+
+/-- the destructor-panic step is enabled exactly there, and it enters the panic handler with everything still live -/
+theorem destructor_panic_enters_handler (c : Cfg) (hc : c.Good) (s : St) (h : Reachable c s) (i : Nat) (x' : Inst)
+    (hs : stepI c (s.inst i) .tDropPanic = some x') :
+    (s.inst i).t = .dropVal ∧ x'.t = .pRead ∧ x'.panicked = true ∧ x'.dpanic = true ∧ x'.bad = false ∧
+    x'.tsm = .live ∧ x'.tls = .live ∧ x'.stack = .live ∧ x'.val = .freed := by
+  have inv' := stepI_inv c hc _ _ _ hs (reachable_inv c hc s h i)
+  have ht : (s.inst i).t = .dropVal := by
+    simp only [stepI] at hs; split at hs
+    · assumption
+    · simp at hs
+  obtain ⟨a1, a2, a3, _, a5, a6, _⟩ := destructor_runs_before_any_release c hc s h i ht
+  simp only [stepI, ht, if_true, a6, if_false] at hs
+  simp only [Option.some.injEq] at hs
+  subst hs
+  have hnb := (reachable_inv c hc s h i).nbad
+  refine ⟨ht, ?_, ?_, ?_, ?_, ?_, ?_, ?_, ?_⟩ <;> simp [takeVal, a6, touchTsm, touchStack, a1, a2, a3, a5, notLive, hnb]
+
+/-- **release_exactly_once under a panicking destructor**: every complete execution in which the destructor of the
+unread result panicked on the thread has released block, thread-local block and stack exactly once each (all by the
+panic handler), never touched anything released, ran the destructor once, and leaves exactly the closure box behind -/
+theorem destructor_panic_release_exactly_once (c : Cfg) (hc : c.Good) (s : St) (h : Reachable c s) (i : Nat)
+    (hcmp : complete (s.inst i) = true) (hdp : (s.inst i).dpanic = true) :
+    (s.inst i).h = .detached ∧ (s.inst i).panicked = true ∧ (s.inst i).bad = false ∧
+    (s.inst i).tsmFrees = 1 ∧ (s.inst i).tlsFrees = 1 ∧ (s.inst i).stackFrees = 1 ∧ (s.inst i).boxFrees = 0 ∧
+    (s.inst i).val = .freed ∧ liveHeap (s.inst i) = 1 ∧ liveMaps (s.inst i) = 0 ∧
+    -- the closure did return its value: the panic is not the closure's
+    (∃ v, (s.inst i).ret = some (some v)) ∧ (s.inst i).joinRes = none := by
+  have inv := reachable_inv c hc s h i
+  obtain ⟨hp, hw, hpw, hran⟩ := inv.dpI hdp
+  have hdet := inv.wH.mp hw
+  have hsp : spawnedOk (s.inst i).h = true := by rw [hdet]; rfl
+  obtain ⟨_, b2, _, b4, _, b6, _, b8, _⟩ := release_exactly_once c hc s h i hcmp hsp
+  have hval : (s.inst i).val = .freed := by rw [inv.valEq]; simp [valOf, hp, hdp, hran]
+  have hled := complete_ledger c hc s h i hcmp
+  have hret := inv.ret2 hpw
+  have hslot : (s.inst i).slot ≠ none := by
+    intro h0; have := hret.2.mpr h0; rw [hdp] at this; cases this.2
+  refine ⟨hdet, hp, inv.nbad, b2, b4, b6, (b8 hp).2, hval, ?_, hled.2, ?_, ?_⟩
+  · rw [hled.1]; simp [leaked, hsp, hp, b2n]
+  · cases hs : (s.inst i).slot with
+    | none => exact absurd hs hslot
+    | some v => exact ⟨v, by rw [hret.1, hs]⟩
+  · rw [inv.joinI]; simp [hdet, hReadDone]
+
+/-- non-vacuity: that execution exists (`dropPanicTrace`), and its ledger is the one the theorem states -/
+example : (run genCfg St.init dropPanicTrace).map (fun s =>
+    (complete (s.inst 0) && (s.inst 0).dpanic && !(s.inst 0).bad && (s.inst 0).val == .freed,
+     (s.inst 0).tsmFrees, (s.inst 0).tlsFrees, (s.inst 0).stackFrees, (s.inst 0).boxFrees)) = some (true, 1, 1, 1, 0) := by decide
 
 end TinyVerif.Thread
